@@ -559,7 +559,7 @@ def rule_dedup(ctx: Ctx) -> RuleResult:
             ytests = {(norm(tt), lab) for tt, lab in tests}
             for a in adds:
                 atests = {(norm(tt), lab) for tt, lab in ctx.ef._dominating_tests(cfg, a)}
-                inner = {x for x in ytests - atests if "as_sid" not in x[0] and "do_strip" not in x[0]}
+                inner = {x for x in ytests - atests if "as_sid" not in x[0] and "do_strip" not in x[0] and x[0] not in ("True", "1")}
                 # exceptional edges: an insert before a try body is not in the same region as a yield after it
                 if inner:
                     res.violation([q, "insert before validation", s],
@@ -716,10 +716,15 @@ def rule_assid(ctx: Ctx) -> RuleResult:
                 if not (isinstance(st, ast.If) and norm(st.test) == "as_sid"):
                     continue
                 n += 1
-                a = [x for x in st.body if isinstance(x, (ast.Expr, ast.Return))]
-                b = [x for x in st.orelse if isinstance(x, (ast.Expr, ast.Return))]
-                va = _value_of(a[0]) if len(a) == 1 and len(st.body) == 1 else None
-                vb = _value_of(b[0]) if len(b) == 1 and len(st.orelse) == 1 else None
+                body = [x for x in st.body if not isinstance(x, (ast.Break, ast.Continue))]
+                orelse = [x for x in st.orelse if not isinstance(x, (ast.Break, ast.Continue))]
+                if not st.orelse and st.body and isinstance(st.body[-1], (ast.Break, ast.Continue, ast.Return)):
+                    # early-exit spelling: the other branch is what follows the `if`
+                    orelse = [x for x in _following(m.node, st) if not isinstance(x, (ast.Break, ast.Continue))][:1]
+                a = [x for x in body if isinstance(x, (ast.Expr, ast.Return))]
+                b = [x for x in orelse if isinstance(x, (ast.Expr, ast.Return))]
+                va = _value_of(a[0]) if len(a) == 1 and len(body) == 1 else None
+                vb = _value_of(b[0]) if len(b) == 1 and len(orelse) == 1 else None
                 site = f"{m.qualname}: if as_sid: {norm(va) if va is not None else '?'} else: {norm(vb) if vb is not None else '?'}"
                 ok = False
                 if va is not None and vb is not None:
@@ -741,6 +746,15 @@ def rule_assid(ctx: Ctx) -> RuleResult:
                                                                                   f"produce the same entry as Sid and as string", m.relpath, st.lineno, site=site)
     res.floor(n, 3, "`if as_sid:` branch pairs")
     return res
+
+
+def _following(fn: ast.AST, st: ast.stmt) -> List[ast.stmt]:
+    for holder in ast.walk(fn):
+        for fld in ("body", "orelse", "finalbody"):
+            blk = getattr(holder, fld, None)
+            if isinstance(blk, list) and st in blk:
+                return blk[blk.index(st) + 1:]
+    return []
 
 
 def _value_of(st):
